@@ -211,6 +211,8 @@ def check_object(obj, case) -> Optional[C.Failing]:
                 if d:
                     return C.Failing("xml:roundtrip:second-read-sees-edits-of-first", f"{type(obj).__name__} via store document, read again "
                                      f"after the first result was edited in place: {d[:200]}", case, d)
+            if not (case.get("index", 0) < 200 or case.get("index", 0) % 8 == 0):    # every object of a quick run, every eighth beyond
+                return None
             # (round 6) instances of application-defined subclasses of every class hold the same model
             touched = c03.reclass_tree(obj)
             try:
